@@ -17,7 +17,13 @@
                 try: utime(lock, None)                     -- refresh: mtime := now
                 except OSError: break                      -- exit, cause CLockGone
      is_failed (file_keepalive_based_lock):  exists and  st_mtime <= time() - expiry
-     release(): kill the monitor, unlink.   fail(): kill the monitor, utime(failed stamp).
+     release(): kill the monitor, unlink.
+     fail(): TWO primitives, in this order:  stop_monitor() (kill the helper)  ;  os.utime(lock, failed stamp).
+             The helper is a concurrent process: its wake-ups (EWake) may fall between any two
+             primitives of the holder, so fail() is also modelled as its two halves
+             EFailStop ; EFailMark  (EFail = both at once, see Proofs: fail_is_stop_then_mark).
+     start_monitor(): Popen([python, -m, jug.backends.file_keepalive_monitor, fullname]) with the
+             holder's cwd: the helper resolves its path argument against ITS cwd (section "launch").
      get() (any client): exclusive create: succeeds iff the file is absent.
      cleanup --failed-only (another client): for every lock: if is_failed(): release(). *)
 From Coq Require Import List ZArith Bool.
@@ -42,7 +48,9 @@ Inductive event :=
 | EWake        (* the monitor returns from sleep() and runs one loop body *)
 | EDie         (* the holder's process disappears without releasing *)
 | ERelease     (* the holder calls lock.release() *)
-| EFail        (* the holder calls lock.fail() *)
+| EFail        (* the holder calls lock.fail(), no other event in between its two primitives *)
+| EFailStop    (* first primitive of fail(): stop_monitor() kills the helper *)
+| EFailMark    (* second primitive of fail(): os.utime(lock, failed stamp) *)
 | EUnlink      (* somebody else removes the lock file (cleanup --locks-only, rm) *)
 | EQuery       (* another client calls lock.is_locked() and lock.is_failed() *)
 | ECleanup     (* another client runs cleanup --failed-only *)
@@ -54,7 +62,8 @@ Inductive out :=
 | OLocked (t : Z) (b : bool)       (* answer of is_locked() at t *)
 | OFailed (t : Z) (b : bool)       (* answer of is_failed() at t *)
 | OCleaned (t : Z) (b : bool)      (* cleanup --failed-only at t removed the lock (b) *)
-| OGet (t : Z) (b : bool).         (* answer of get() at t *)
+| OGet (t : Z) (b : bool)          (* answer of get() at t *)
+| OMarked (t : Z) (b : bool).      (* fail()'s os.utime(lock, failed stamp) at t succeeded (b) = what fail() returns *)
 
 Record world := {
   w_now : Z;
@@ -116,6 +125,17 @@ Definition step (p : params) (w : world) (te : Z * event) : world * list out :=
         ({| w_now := t;
             w_lock := match w_lock w with Some _ => Some (p_failed_ts p) | None => None end;
             w_alive := true; w_held := false; w_mon := MDone |}, kill_out (w_mon w) t)
+      else ({| w_now := t; w_lock := w_lock w; w_alive := false; w_held := w_held w; w_mon := w_mon w |}, [])
+  | EFailStop =>
+      if w_alive w then
+        ({| w_now := t; w_lock := w_lock w; w_alive := true; w_held := false; w_mon := MDone |}, kill_out (w_mon w) t)
+      else ({| w_now := t; w_lock := w_lock w; w_alive := false; w_held := w_held w; w_mon := w_mon w |}, [])
+  | EFailMark =>
+      if w_alive w then
+        ({| w_now := t;
+            w_lock := match w_lock w with Some _ => Some (p_failed_ts p) | None => None end;
+            w_alive := true; w_held := false; w_mon := w_mon w |},
+         [OMarked t (match w_lock w with Some _ => true | None => false end)])
       else ({| w_now := t; w_lock := w_lock w; w_alive := false; w_held := w_held w; w_mon := w_mon w |}, [])
   | EUnlink =>
       ({| w_now := t; w_lock := None; w_alive := w_alive w; w_held := w_held w; w_mon := w_mon w |}, [])
@@ -199,5 +219,54 @@ Definition out_eqb (a b : out) : bool :=
   | OFailed t x, OFailed u y => (t =? u) && Bool.eqb x y
   | OCleaned t x, OCleaned u y => (t =? u) && Bool.eqb x y
   | OGet t x, OGet u y => (t =? u) && Bool.eqb x y
+  | OMarked t x, OMarked u y => (t =? u) && Bool.eqb x y
   | _, _ => false
   end.
+
+(* ---- launch: how start_monitor() starts the helper ------------------------------------
+   A path is (absolute?, components); the helper process resolves its path argument against
+   its own working directory, the holder resolved self.fullname against the holder's.
+   (Components are interned by the harness; no "..", no symbolic links.) *)
+Definition path := (bool * list Z)%type.
+
+Definition resolve (cwd : list Z) (q : path) : list Z := if fst q then snd q else cwd ++ snd q.
+
+Record launch := {
+  l_cwd : option path;    (* Popen(..., cwd=...): None = inherit the holder's working directory *)
+  l_arg : path            (* the path argument: sys.argv[1] of the helper *)
+}.
+
+(* what file_keepalive_based_lock.start_monitor does: no cwd, self.fullname unchanged *)
+Definition start_monitor_launch (fullname : path) : launch := {| l_cwd := None; l_arg := fullname |}.
+
+Definition helper_cwd (wcwd : list Z) (l : launch) : list Z :=
+  match l_cwd l with None => wcwd | Some c => resolve wcwd c end.
+
+(* the file the helper's utime(lock, None) addresses / the file the holder created *)
+Definition helper_target (wcwd : list Z) (l : launch) : list Z := resolve (helper_cwd wcwd l) (l_arg l).
+Definition lock_file (wcwd : list Z) (fullname : path) : list Z := resolve wcwd fullname.
+
+Fixpoint zlist_eqb (a b : list Z) : bool :=
+  match a, b with
+  | [], [] => true
+  | x :: a', y :: b' => (x =? y) && zlist_eqb a' b'
+  | _, _ => false
+  end.
+
+Definition path_eqb (a b : path) : bool := Bool.eqb (fst a) (fst b) && zlist_eqb (snd a) (snd b).
+
+Definition launch_eqb (a b : launch) : bool :=
+  match l_cwd a, l_cwd b with
+  | None, None => true
+  | Some x, Some y => path_eqb x y
+  | _, _ => false
+  end && path_eqb (l_arg a) (l_arg b).
+
+(* the tie's test on one observed start of the helper: the Popen call is the modelled one and
+   the file it makes the helper address (as resolved by the operating system) is the lock file
+   (as found on disk) *)
+Definition launch_check (wcwd : list Z) (fullname : path) (observed : launch) (target lockfile : list Z) : bool :=
+  launch_eqb observed (start_monitor_launch fullname) &&
+  zlist_eqb (helper_target wcwd observed) target &&
+  zlist_eqb (lock_file wcwd fullname) lockfile &&
+  zlist_eqb target lockfile.
